@@ -112,7 +112,7 @@ def specs(tier):
     out = []
 
     def add(ens, table, bare_kind="shift", atoms="A2", **kw):
-        out.append(dict(ens=ens, atoms=atoms, table=table, bare_kind=bare_kind, depth=kw.pop("depth", d), calc=kw.pop("calc", "zero"), **kw))
+        out.append(dict(ens=ens, atoms=atoms, table=table, bare_kind=bare_kind, depth=(kw.pop("depth", d) if tier == "quick" else (kw.pop("depth", None), 3)[1]), cap=None if tier == "quick" else 100_000, calc=kw.pop("calc", "zero"), **kw))
 
     add("MonteCarlo", [])
     add("Canonical", [])
@@ -155,7 +155,7 @@ def make(spec, ch):
         sysm.mc, sysm.atoms, sysm.entries, sysm.leaves = mc, atoms, {}, []
         sysm.close = mc.close
     else:
-        sysm = build({k: v for k, v in spec.items() if k not in ("bare_kind", "depth", "twice")})
+        sysm = build({k: v for k, v in spec.items() if k not in ("bare_kind", "depth", "twice", "cap")})
     mc = sysm.mc
     install(mc, ChoiceRNG(ch, Policy(uniform_q=(0.3, 0.8), angular_q=None, product_limit=0, branch_calls=0)))
     bm, bc = BareMove("user-move", spec["bare_kind"]), BareCriteria("user-criteria")
@@ -186,6 +186,21 @@ def task(spec):
         seen[sig] = seen.get(sig, 0) + 1
         if seen[sig] <= 2:
             viol.append({"signature": sig, "what": what, "replay": {"check": PID, "func": "task", "arg": {**{k: v for k, v in spec.items() if k != "only"}, "only": ch.choices}}})
+
+    if spec.get("only") is None and depth > 1 and spec.get("cap"):
+        from qv.core import plan_depth
+
+        def _mk(d):
+            def r(ch):
+                sysm, bm, bc, crits = make(spec, ch)
+                for step in sysm.mc.irun(d):
+                    for _ in step:
+                        pass
+                sysm.close()
+
+            return r
+
+        depth, _e1 = plan_depth(_mk, depth, cap=spec["cap"], floor=1)
 
     def run(ch):
         del ACCESS[:]
